@@ -81,9 +81,11 @@ def iter_kind(it: ast.AST, pos: int) -> str:
 def run(prog: Program, rep: Report, tier: str) -> None:
     rep.rule('C20-D1', 'key-kind agreement: every subscript / in / get / setdefault / pop on domains, factors, _node_labels, _edge_labels (name-keyed), _nodes, _edges (id-keyed), _rules (label-keyed) uses a key of that kind, wherever its kind can be inferred from .name/.id projections, annotations and iteration sources')
     rep.rule('C20-D2', 'guarded binding: the store into self.factors is unreachable when the label is a nonterminal, is already bound, has another arity, or some domain is unmapped/different (each check evaluated by guard truth table, per element for the zip loop); likewise self.domains when the node label is bound, and FiniteFactor._weights when the shape differs')
+    rep.rule('C20-D3', 'equality by content / consistent indexing: __eq__ of FiniteDomain, RangeDomain, ConstantFactor and FiniteFactor compares the attributes the property names (values / size / domains and weight(s)) on both operands; FiniteDomain indexes numberize and denumberize from the same enumeration of its values; FiniteFactor.apply indexes the weights with d.numberize(v) for (d, v) in zip(self.domains, values)')
     rep.not_decided += ['numberize/denumberize are mutually inverse for all value lists', 'apply() returns the weight at the numberized position']
     key_kinds(rep, prog)
     guarded_stores(rep, prog)
+    content_equality(rep, prog)
 
 
 def key_kinds(rep: Report, prog: Program) -> None:
@@ -282,3 +284,50 @@ def guarded_stores(rep: Report, prog: Program) -> None:
         via = [n for n in own_nodes(init.node) if isinstance(n, ast.Attribute) and isinstance(n.ctx, ast.Store) and n.attr == 'weights' and norm(n.value) == sn]
         rep.ob(rule, init.fq(), 'constructor binds weights through the validating setter', init.loc(), bool(via) and not direct,
                '' if via and not direct else 'the constructor writes _weights directly, bypassing the shape check')
+
+
+def content_equality(rep: Report, prog: Program) -> None:
+    rule = 'C20-D3 content-equality'
+    want = {('fggs.domains', 'FiniteDomain'): [{'values'}], ('fggs.domains', 'RangeDomain'): [{'_size', 'size'}],
+            ('fggs.factors', 'ConstantFactor'): [{'domains'}, {'weight'}], ('fggs.factors', 'FiniteFactor'): [{'domains'}, {'weights', '_weights'}]}
+    for (mod, cname), groups in want.items():
+        ci = prog.cls(mod, cname)
+        f = ci.methods.get('__eq__')
+        if f is None:
+            rep.ob(rule, ci.fq(), f"{cname}.__eq__ by content", f"{ci.module.relpath}:{ci.node.lineno}", False, f"{cname} inherits identity comparison")
+            continue
+        selfn, other = f.positional_params()[:2]
+        for who in (selfn, other):
+            reads = {n.attr for n in own_nodes(f.node) if isinstance(n, ast.Attribute) and isinstance(n.value, ast.Name) and n.value.id == who} | \
+                    {n.func.attr for n in own_nodes(f.node) if isinstance(n, ast.Call) and isinstance(n.func, ast.Attribute) and isinstance(n.func.value, ast.Name) and n.func.value.id == who}
+            miss = [sorted(g)[0] for g in groups if not (g & reads)]
+            rep.ob(rule, f.fq(), f"{cname}.__eq__ reads {[sorted(g)[0] for g in groups]} of `{who}`", f.loc(), not miss, f"read: {sorted(reads)}" + (f"; not compared: {miss}" if miss else ''))
+        same_type = any(isinstance(n, ast.Compare) and 'type(' in norm(n) for n in own_nodes(f.node)) or any(isinstance(n, ast.Call) and callee_last(n) == 'isinstance' for n in own_nodes(f.node))
+        rep.ob(rule, f.fq(), f"{cname}.__eq__ requires the same class", f.loc(), same_type, '')
+    fd = prog.cls('fggs.domains', 'FiniteDomain')
+    init = fd.methods['__init__']
+    p0 = init.positional_params()[1]
+    idx = [n for n in own_nodes(init.node) if isinstance(n, ast.DictComp)]
+    ok = False
+    for d in idx:
+        g = d.generators[0]
+        if isinstance(g.iter, ast.Call) and callee_last(g.iter) == 'enumerate' and norm(g.iter.args[0]) in (p0, f"{init.positional_params()[0]}.values") and not g.ifs \
+                and isinstance(g.target, ast.Tuple) and norm(d.key) == norm(g.target.elts[1]) and norm(d.value) == norm(g.target.elts[0]):
+            ok = True
+    rep.ob(rule, init.fq(), 'value index = {v: i for (i, v) in enumerate(values)} over the same sequence as self.values', init.loc(), ok, '')
+    nb, dn = fd.methods.get('numberize'), fd.methods.get('denumberize')
+    okn = nb is not None and any(isinstance(n, ast.Return) and isinstance(n.value, ast.Subscript) and norm(n.value.value).endswith('._value_index') for n in own_nodes(nb.node))
+    okd = dn is not None and any(isinstance(n, ast.Return) and isinstance(n.value, ast.Subscript) and norm(n.value.value).endswith('.values') for n in own_nodes(dn.node))
+    rep.ob(rule, fd.fq(), 'numberize looks up the value index, denumberize the value list', f"{fd.module.relpath}:{fd.node.lineno}", okn and okd, '')
+    ff = prog.cls('fggs.factors', 'FiniteFactor').methods.get('apply')
+    if ff is not None:
+        selfn, vals = ff.positional_params()[:2]
+        ok = False
+        for n in own_nodes(ff.node):
+            if isinstance(n, (ast.GeneratorExp, ast.ListComp)) and len(n.generators) == 1:
+                g = n.generators[0]
+                if isinstance(g.iter, ast.Call) and callee_last(g.iter) == 'zip' and [norm(a) for a in g.iter.args] == [f"{selfn}.domains", vals] and not g.ifs \
+                        and isinstance(n.elt, ast.Call) and callee_last(n.elt) == 'numberize' and isinstance(g.target, ast.Tuple) \
+                        and norm(n.elt.func.value) == norm(g.target.elts[0]) and norm(n.elt.args[0]) == norm(g.target.elts[1]):
+                    ok = True
+        rep.ob(rule, ff.fq(), 'apply indexes the weights with d.numberize(v) for (d, v) in zip(self.domains, values)', ff.loc(), ok, '')
